@@ -50,14 +50,22 @@ class Apply(Stream):
             sig, tat, bars, arr = rand_grid(rng)
             m = rng.randrange(1, 8)
             mel = [{"kind": rng.choice("sssshr"), "val": i % 7, "oct": i // 7} for i in range(m)]
-            yield {"sig": list(sig), "tatum": tat, "bars": bars, "array": arr, "mel": mel}
+            case = {"sig": list(sig), "tatum": tat, "bars": bars, "array": arr, "mel": mel}
+            if rng.random() < 0.3:
+                # a window [start, end) in tatums, possibly several grid lengths long (the grid repeats cyclically)
+                a = rng.randrange(0, 2 * len(arr))
+                case["window"] = [a, a + rng.randrange(1, 3 * len(arr) + 1)]
+            yield case
 
     def impl(self, case):
         from musiclang import Metric, Melody, Note, Silence
         def f():
             met = Metric(list(case["array"]), tuple(case["sig"]), tatum=F(case["tatum"]), nb_bars=case["bars"])
             notes = [Silence(1) if n["kind"] == "r" else Note(n["kind"], n["val"], n["oct"], 1) for n in case["mel"]]
-            res = met.apply_to_melody(Melody(notes))
+            if case.get("window"):
+                res = met.apply_to_melody(Melody(notes), start=case["window"][0] * F(case["tatum"]), end=case["window"][1] * F(case["tatum"]))
+            else:
+                res = met.apply_to_melody(Melody(notes))
             out = []
             for x in res.notes:
                 k = F(x.duration) / F(case["tatum"])
@@ -66,10 +74,20 @@ class Apply(Stream):
                     if x.type == n.type and x.val == n.val and x.octave == n.octave and x.type != "r":
                         src = i
                 out.append([src, k, x.type])
-            back = Metric.FromMelody(res, signature=tuple(case["sig"]), tatum=F(case["tatum"]), nb_bars=case["bars"]).array
+            back = [] if case.get("window") else \
+                Metric.FromMelody(res, signature=tuple(case["sig"]), tatum=F(case["tatum"]), nb_bars=case["bars"]).array
             return {"entries": out, "duration": F(res.duration), "metric_duration": F(met.duration), "back": [int(b) for b in back],
                     "onsets": [F(t) for t in res.get_onset_times()]}
         return mlang.guarded(f)
+
+    @staticmethod
+    def grid(case):
+        """the pulse grid actually applied: the array, or its cyclic repetition over the window"""
+        arr = case["array"]
+        if case.get("window"):
+            a, b = case["window"]
+            return [arr[i % len(arr)] for i in range(a, b)]
+        return arr
 
     def expected_entries(self, case, r):
         """the implementation's entries as (source index or None, tatums); a melody rest that lands on a pulse is (its index)"""
@@ -86,12 +104,12 @@ class Apply(Stream):
             items = []
             for i, (src, k, typ) in enumerate(r["entries"]):
                 assert F(k).denominator == 1
-                first_rest = (i == 0 and case["array"][0] != 1)
-                if src is None and not first_rest and self.group_is_note(case["array"], i):
+                first_rest = (i == 0 and self.grid(case)[0] != 1)
+                if src is None and not first_rest and self.group_is_note(self.grid(case), i):
                     src = i % len(case["mel"])
                 items.append(T(O(src, Z), Z(int(k))))
             exp = "(Some " + L(items) + ")"
-        return T(core.Zl(case["array"]), Z(len(case["mel"])), exp)
+        return T(core.Zl(self.grid(case)), Z(len(case["mel"])), exp)
 
     @staticmethod
     def group_is_note(arr, i):
@@ -102,8 +120,8 @@ class Apply(Stream):
     def spec(self, case, r):
         if mlang.is_exc(r):
             return {"sig": "apply-raises", "msg": str(r)}
-        arr, tat = case["array"], F(case["tatum"])
-        if r["duration"] != r["metric_duration"] or r["duration"] != len(arr) * tat:
+        arr, tat = self.grid(case), F(case["tatum"])
+        if (not case.get("window") and r["duration"] != r["metric_duration"]) or r["duration"] != len(arr) * tat:
             return {"sig": "apply-duration", "msg": f"{r['duration']} vs metric {r['metric_duration']}"}
         pulses = [i * tat for i, b in enumerate(arr) if b == 1]
         # onsets of the entries that come from the melody = the pulse positions
@@ -125,22 +143,23 @@ class Apply(Stream):
                     return {"sig": "apply-order", "msg": f"pulse {j}: expected the melody's rest"}
             elif src != (j + k0) % m:
                 return {"sig": "apply-order", "msg": f"pulse {j} took note {src}, expected {(j + k0) % m}"}
-        if all(n["kind"] != "r" for n in case["mel"]) and r["back"] != [1 if b == 1 else 0 for b in arr]:
+        if not case.get("window") and all(n["kind"] != "r" for n in case["mel"]) and r["back"] != [1 if b == 1 else 0 for b in arr]:
             return {"sig": "from-melody-roundtrip", "msg": f"{r['back']} vs {arr}"}
         return None
 
     def entry_on_pulse(self, case, t):
         i = t / F(case["tatum"])
-        return i.denominator == 1 and case["array"][int(i)] == 1
+        return i.denominator == 1 and self.grid(case)[int(i)] == 1
 
     def is_melody_rest(self, case, r, t):
         return self.entry_on_pulse(case, t)
 
     def nontrivial(self, case, r):
-        return sum(case["array"]) >= 2
+        return sum(self.grid(case)) >= 2
 
     def hist_keys(self, case, r):
-        return ["leading-rest" if case["array"][0] != 1 else "starts-on-pulse", f"sig={case['sig'][0]}/{case['sig'][1]}"]
+        return ["leading-rest" if self.grid(case)[0] != 1 else "starts-on-pulse", f"sig={case['sig'][0]}/{case['sig'][1]}",
+                "window" if case.get("window") else "whole-grid"]
 
     def shrink(self, case):
         if len(case["mel"]) > 1:
@@ -178,15 +197,35 @@ class Euclid(Stream):
 
     def impl(self, case):
         from musiclang.write.rhythm.utils_metric import bjorklund_algorithm
-        return mlang.guarded(lambda: [int(x) for x in bjorklund_algorithm(case["steps"], case["pulses"])])
+        from musiclang import Metric
+        def f():
+            s_, p_ = case["steps"], case["pulses"]
+            direct = [int(x) for x in bjorklund_algorithm(s_, p_)]
+            # the same rhythm through the public constructor, for every split of the steps into 1..4 bars of k quarter notes
+            for bars in (1, 2, 3, 4):
+                if s_ % bars == 0:
+                    for sig in SIGS:
+                        for tat in TATUMS + [F(1, 16), F(1, 12), F(1, 24)]:
+                            if F(sig[0]) * F(4, sig[1]) / tat == s_ // bars:
+                                m = Metric.Euclidian(p_, sig, tat, nb_bars=bars)
+                                if [int(x) for x in m.array] != direct:
+                                    return {"direct": direct, "metric": [int(x) for x in m.array], "bars": bars, "sig": list(sig), "tatum": str(tat)}
+            return direct
+        return mlang.guarded(f)
 
     def term(self, case, r):
+        if isinstance(r, dict) and not mlang.is_exc(r):
+            r = r["metric"]
         return T(Z(case["steps"]), Z(case["pulses"]), "None" if mlang.is_exc(r) else f"(Some {core.Zl(r)})")
 
     def spec(self, case, r):
         s, p = case["steps"], case["pulses"]
         if mlang.is_exc(r):
             return {"sig": "euclid-raises", "msg": f"({s},{p}): {r}"}
+        if isinstance(r, dict):
+            if not max_even(r["metric"]) or sum(r["metric"]) != p or r["metric"][0] != 1:
+                return {"sig": "euclid-metric-not-maximally-even", "msg": f"Metric.Euclidian({p}, {tuple(r['sig'])}, {r['tatum']}, nb_bars={r['bars']}) = {r['metric']}"}
+            return {"sig": "euclid-metric-differs-from-bjorklund", "msg": f"({s},{p}) in {r['bars']} bars: {r['metric']} vs {r['direct']}"}
         if len(r) != s:
             return {"sig": "euclid-length", "msg": f"({s},{p}): {len(r)} steps"}
         if sum(r) != p or any(b not in (0, 1) for b in r):
